@@ -118,6 +118,7 @@ type GenesisOptions struct {
 	RtRoundTimeout      int64    // executor round timeout in blocks (default 5)
 	RtTwoVersions       bool     // the runtime has a second deployment (version 1.0.0) valid from epoch 3; node 1 is registered for the old version only
 	Prefix              []string // letter names executed (one block each) before the explored history starts: part of the initial state (interpreted by the engines, not by Genesis)
+	RtWhitelist         bool     // the compute runtime admits only whitelisted entities: every entity at most 1 compute and 2 validator nodes and 1 observer node for it; observers additionally only from entity 0 (per-role policy)
 	KeyManager          bool     // a key manager runtime without TEE hardware owned by entity 0; all genesis nodes are also key manager nodes for it (pristine init response)
 	Feature261          bool     // consensus feature version 26.1 (runtime owner index, node / runtime admission rules of 26.1 after genesis)
 	VRF                 bool     // VRF beacon backend (the production one): epochs of EpochInterval blocks, proofs accepted VRFDelay blocks after an epoch starts, alpha is high quality with >= VRFThreshold proofs
@@ -205,6 +206,18 @@ func (k *Keys) RuntimeDescriptor(ent int, o GenesisOptions) *registry.Runtime {
 			MinInMessageFee: q(1),
 		},
 		Deployments: []*registry.VersionInfo{{}},
+	}
+	if o.RtWhitelist {
+		wl := map[signature.PublicKey]registry.EntityWhitelistConfig{}
+		for _, e := range k.Entities {
+			wl[e.Public()] = registry.EntityWhitelistConfig{MaxNodes: map[node.RolesMask]uint16{node.RoleComputeWorker: 1, node.RoleValidator: 2, node.RoleObserver: 1}}
+		}
+		rt.AdmissionPolicy = registry.RuntimeAdmissionPolicy{
+			EntityWhitelist: &registry.EntityWhitelistRuntimeAdmissionPolicy{Entities: wl},
+			PerRole: map[node.RolesMask]registry.PerRoleAdmissionPolicy{
+				node.RoleObserver: {EntityWhitelist: &registry.EntityWhitelistRoleAdmissionPolicy{Entities: map[signature.PublicKey]registry.EntityWhitelistRoleConfig{k.Entities[0].Public(): {}}}},
+			},
+		}
 	}
 	if o.RtTwoVersions {
 		rt.Deployments = append(rt.Deployments, &registry.VersionInfo{Version: version.Version{Major: 1}, ValidFrom: 3})
